@@ -126,9 +126,23 @@ fn render_case<F: Backend + RenderHints>(
             let vars = [p[0], p[1], z as f64, 0.0, 0.0, free];
             let (v, mag) = scene::eval64(&s.prog, &vars);
             total += 1;
-            if v.is_nan() {
-                // outside the shape's domain (sqrt of a negative number ...): the
-                // property's "value at the sample position" is undefined there
+            // the renderer computes the sample position in f32: the reference is
+            // also taken at positions perturbed by that rounding, which matters
+            // where the shape is ill-conditioned (sqrt at the edge of its domain)
+            let dpos = 2e-6 * (1.0 + p[0].abs().max(p[1].abs()));
+            let (mut vmin, mut vmax, mut any_nan) = (v, v, v.is_nan());
+            for (dx, dy) in [(dpos, 0.0), (-dpos, 0.0), (0.0, dpos), (0.0, -dpos)] {
+                let (w, _) = scene::eval64(&s.prog, &[p[0] + dx, p[1] + dy, z as f64, 0.0, 0.0, free]);
+                if w.is_nan() {
+                    any_nan = true;
+                } else {
+                    vmin = vmin.min(w);
+                    vmax = vmax.max(w);
+                }
+            }
+            if any_nan {
+                // at or beyond the edge of the shape's domain (sqrt of a negative
+                // number ...): the value at the sample position is undefined
                 undecidable += 1;
                 continue;
             }
@@ -137,11 +151,11 @@ fn render_case<F: Backend + RenderHints>(
             if pixel_perfect {
                 match px.unpack() {
                     DistancePixel::Value(g) => {
-                        if !((g as f64 - v).abs() <= 10.0 * tol) {
+                        if !((g as f64) >= vmin - 10.0 * tol && (g as f64) <= vmax + 10.0 * tol) {
                             cx.violation(
                                 format!("{} pixel-perfect value differs from the shape's value", F::NAME),
                                 desc(),
-                                format!("pixel ({i},{j}) at model position ({:.6},{:.6}): image carries {g}, shape evaluates to {v}", p[0], p[1]),
+                                format!("pixel ({i},{j}) at model position ({:.6},{:.6}): image carries {g}, shape evaluates to {v} (range over the position rounding [{vmin}, {vmax}])", p[0], p[1]),
                             );
                             return;
                         }
@@ -156,7 +170,7 @@ fn render_case<F: Backend + RenderHints>(
                     }
                 }
             }
-            if v.abs() <= tol {
+            if vmin.abs() <= tol || vmax.abs() <= tol || (vmin < 0.0) != (vmax < 0.0) {
                 undecidable += 1;
                 continue;
             }
